@@ -4,7 +4,7 @@ PROP = {'tables': ['C15'], 'n_quick': 110,
  'audit': 4,
  'audit_maxlen': 1500,
  'rule': 'real PSETs built with the crate: every optional global / input / output field alone (exhaustive: 7 + 55 + 17 field settings incl. mandatory-field '
-         'variations, multi-entry BTreeMap fields with compressed and uncompressed keys, ELIP-102 abf), tap trees of every shape up to 4 leaves (5 thorough), '
+         'variations, multi-entry BTreeMap fields with compressed and uncompressed keys, ELIP-102 abf), tap trees of every shape up to 4 leaves (5 thorough), commitment / generator values of 32 and 34 bytes, '
          'map counts 0..3, blinded / explicit outputs, unknown and foreign proprietary pairs, n random subsets; the PSET hex literals of src/pset/mod.rs and the '
          "repository's transactions through from_tx; 2n pair-level variants of valid encodings (pair re-ordering, duplicated key, dropped mandatory pair, wrong "
          'count, missing / extra map, corrupted preimage, trailing bytes after a count VarInt, explicit Default sighash byte, key/value edits), n/2 byte-level '
@@ -18,28 +18,28 @@ PROP = {'tables': ['C15'], 'n_quick': 110,
              'the order in which a BTreeMap field is emitted is the transcribed `Ord` of the Rust key type (bitcoin::PublicKey: uncompressed first, then the '
              'compressed serialisation; Xpub: derived field order; ProprietaryKey, raw::Key: derived; hashes, x-only keys, ControlBlock: bytewise) — exercised by '
              'multi-entry maps in every run',
-             'Generator / PedersenCommitment values shorter than 33 bytes (undefined behaviour in the library, finding F18) are rejected by the model and never '
-             'fed to the implementation',
+             'Generator / PedersenCommitment values of a length other than 33 bytes are fed to the decoder only after a probe without undefined behaviour '
+             '(the 32-byte prefix of a 33-byte buffer) shows that the library checks the length (fix 838e50c); the translator anchors the two checks',
              'translator/tables_C07.py: the field tables (type bytes, subtypes, keyed or not, key/value types, mandatory, emission order) are regenerated from '
              'src/pset/map/*.rs on every run; the hand-written arms (xpub, scalars, elements tx-modifiable flag) and the checks after each decode loop are '
              'anchored by regular expressions'],
  'assumes': ['MAX_VEC_SIZE in [4, 2^64-2]; `wf_pset` includes the decoder limits (keys and values <= MAX_VEC_SIZE, <= 10 000 inputs / outputs)',
-             'the fixpoint theorem is restricted to PSETs whose tap trees are fixed points of the TapTree canoniser (single-leaf trees are); the general '
-             'statement is refuted (finding F9)']}
+             'the TapTree canoniser is the C15 builder model (NodeInfo::combine(child, node), fix aee9a45); C07 uses its completeness theorem']}
 
 TEXT = {'text': 'Kernel-checked theorems over the PSET field tables regenerated from the Rust source on every run. A generic table-driven map codec (raw key / '
          'pair / proprietary-key framing, classification of a key to its field, canonicalisation of key and value bytes, insertion in get_pairs emission '
          'order with the duplicate test, mandatory-field checks) is proved once for any table: a well-formed map/PSET decodes back from its encoding '
          '(C07_rt, and through base64 C07_rt_text); everything the decoder accepts satisfies all acceptance rules (C07_decoder_wf) and its re-encoding '
-         'decodes to an equal PSET and re-encodes to itself (C07_fixpoint, for PSETs outside the F9 class); an encoding with a repeated key is rejected '
-         '(C07_rejects_duplicate), accepted maps have all mandatory fields and the output completeness rules, declared counts equal the number of maps, bad '
+         'decodes to an equal PSET and re-encodes to itself (C07_fixpoint, for every accepted byte string); an encoding with a repeated key is rejected '
+         '(C07_rejects_duplicate_tables: no field of the regenerated tables is assigned without a duplicate test), accepted maps have all mandatory fields and the output completeness rules, declared counts equal the number of maps, bad '
          'preimages are errors; BTreeMap insert/get of the ELIP-100/102 accessors. The value canonisers (Deserialize then Serialize of each type of '
-         'pset/serialize.rs) are proved idempotent and non-lengthening (TapTree length via the C15 builder theorems). Refutations with kernel-evaluated '
-         'witnesses: a two-leaf TapTree alternates between two encodings (F9); a duplicated global elements tx-modifiable flag is accepted (F17). The model '
+         'pset/serialize.rs) are proved idempotent and non-lengthening; for TapTree it is the identity (C15 builder completeness + leaf-order lemmas). '
+         'The three repaired findings (F9 reversed tap-tree leaves, F17 duplicated global flag, F18 unchecked commitment length) are kernel-evaluated '
+         'regression examples and return as VIOLATION if the code regresses. The model '
          'is run against serialize/deserialize/to_string/from_str and the accessors of the real crate on every check.',
  'design_ref': 'DESIGN.md section 6, C07',
  'note': 'Trusted: Coq kernel; hand-written Gallina model tied to the Rust by the regenerated tables and the per-run correspondence; secp256k1 validity, '
          'bitcoin::Transaction / Xpub parsing and RIPEMD160 as oracles; transcribed key comparators; Rust harness. Partial: PSET equality is equality of '
-         'canonical bytes (the crate-level `≈` for tap trees is shown on the F9 witness only); the count-mismatch rejection is stated as "accepted implies '
+         'canonical bytes (which implies the crate-level equality); the count-mismatch rejection is stated as "accepted implies '
          'counts = maps and nothing trails".',
  'technique': 'Coq proof (generic insertion-sort decoder invariant + canoniser laws; tables by kernel evaluation) + per-run model/implementation correspondence'}
